@@ -14,17 +14,38 @@ open OllamaVerif OllamaVerif.Store
     layers and its config present with the recorded size and digest -/
 def Inv (env : Env) (st : Store) : Prop := BlobsOk env st ∧ NameInv env st
 
-/-- the request mentions digests only in the `sha256:<hex>` spelling -/
+/-- the request mentions digests only in the `sha256:<hex>` spelling (and is not the injected respelling) -/
 def CanonOp : Op → Prop
   | .create r => ∀ d ∈ r.files, d.form = .colon
+  | .dashify _ => False
   | _ => True
 
-theorem step_good {env : Env} (hinj : HashInj env) {st : Store} (hc : Canonical st) (hi : Inv env st)
-    (op : Op) (ho : CanonOp op) (ch : Choice) : Good env st (step env st op ch).1 (targets op ch) := by
+/-- the guard on the request: none once F16a is repaired -/
+def GuardOp (env : Env) (op : Op) : Prop := env.v.fixAlias = true ∨ CanonOp op
+
+theorem complete_dashed {env : Env} {st : Store} {m : Manifest} (h : ∀ l ∈ m.all, Complete env st l) :
+    ∀ l ∈ m.dashed.all, Complete env st l := by
+  intro l hl
+  simp only [Manifest.all, Manifest.dashed, List.mem_append, List.mem_map, List.mem_singleton] at hl
+  rcases hl with ⟨l0, hl0, e⟩ | hl
+  · have h0 := h l0 (by simp [Manifest.all, hl0])
+    split at e
+    · subst e
+      obtain ⟨c, h1, h2, h3⟩ := h0
+      exact ⟨c, h1, h2, h3⟩
+    · subst e; exact h0
+  · subst hl; exact h m.config (by simp [Manifest.all])
+
+/-- one proof for both variants of F16a: `Guard`/`GuardOp` are `True` when the repair is in, and the
+    `sha256:` spelling conditions on the pinned tree -/
+theorem step_good {env : Env} (hinj : HashInj env) {st : Store} (hc : Guard env st) (hi : Inv env st)
+    (op : Op) (ho : GuardOp env op) (ch : Choice) :
+    Good env st (step env st op ch).1 (targets env st op ch) := by
   obtain ⟨hb, hn⟩ := hi
   cases op with
   | upload d c => exact upload_good hb hc d c
-  | create r => exact createAt_good hinj hb hc r ho _ _
+  | create r =>
+    exact (createAt_good hinj hb hc r (fun d hd => ho.imp id (fun h => h d hd)) _ _).1
   | copy s d => exact copyAt_good hb hc hn _ _
   | delete n => exact deleteAt_good hb hc _
   | prune => exact pruneStartup_good hb hc
@@ -32,47 +53,64 @@ theorem step_good {env : Env} (hinj : HashInj env) {st : Store} (hc : Canonical 
     simp only [step, targets]
     cases hm : st.man s with
     | none => exact Good.refl hb hc _
-    | some f => exact Good.setManifest hb hc d f (fun m e => ⟨hc s m (e ▸ hm), hn s m (e ▸ hm)⟩)
+    | some f => exact Good.setManifest hb hc d f (fun m e => ⟨fun l hl => hc.gd (e ▸ hm) hl, hn s m (e ▸ hm)⟩)
   | corrupt n =>
     simp only [step, targets]
     cases hm : st.man n with
     | none => exact Good.refl hb hc _
     | some f => exact Good.setManifest hb hc n .corrupt (fun m e => by cases e)
+  | dashify n =>
+    have hfix : env.v.fixAlias = true := by
+      rcases ho with h | h
+      · exact h
+      · exact absurd h (by simp [CanonOp])
+    simp only [step, targets]
+    cases hm : st.man n with
+    | none => exact Good.refl hb hc _
+    | some f =>
+      cases f with
+      | corrupt => exact Good.refl hb hc _
+      | readable m =>
+        exact Good.setManifest hb hc n _ (fun m' e => by
+          injection e with e; subst e
+          exact ⟨fun _ _ => Or.inl hfix, complete_dashed (hn n m hm)⟩)
 
-/-- **Every readable (hence every listed) model stays complete.**  For every store in which all digest
-    strings are spelled `sha256:<hex>`, every such request and every map iteration order: the invariant and
-    the spelling condition are preserved by upload, create, copy, delete and the startup prune (and by the two
-    non-API fault operations). -/
-theorem op_preserves_NameInv {env : Env} (hinj : HashInj env) (st : Store) (hc : Canonical st)
-    (hi : Inv env st) (op : Op) (ho : CanonOp op) (ch : Choice) :
+/-! ## pinned tree (F16a not repaired): guarded theorems -/
+
+/-- **Every readable (hence every listed) model stays complete — pinned.**  For every store in which all
+    digest strings are spelled `sha256:<hex>`, every such request and every map iteration order: the invariant
+    and the spelling condition are preserved by upload, create, copy, delete and the startup prune (and by the
+    non-API fault operations plant/corrupt). -/
+theorem op_preserves_NameInv {env : Env} (hv : env.v.fixAlias = false) (hinj : HashInj env) (st : Store)
+    (hc : Canonical st) (hi : Inv env st) (op : Op) (ho : CanonOp op) (ch : Choice) :
     Inv env (step env st op ch).1 ∧ Canonical (step env st op ch).1 :=
-  let g := step_good hinj hc hi op ho ch
-  ⟨⟨g.blobsOk, g.nameInv hi.2⟩, g.canon⟩
+  let g := step_good hinj (Or.inr hc) hi op (Or.inr ho) ch
+  ⟨⟨g.blobsOk, g.nameInv hi.2⟩, g.canon.resolve_left (by simp [hv])⟩
 
-/-- **Operations on one model never damage another.**  Under the same guard: the manifest file of every
-    name other than the operation's (resolved) target is unchanged, and every blob that such a readable
+/-- **Operations on one model never damage another — pinned.**  Under the same guard: the manifest file of
+    every name other than the operation's (resolved) target is unchanged, and every blob that such a readable
     manifest points to is still there with the same bytes. -/
 theorem op_frame {env : Env} (hinj : HashInj env) (st : Store) (hc : Canonical st) (hi : Inv env st)
-    (op : Op) (ho : CanonOp op) (ch : Choice) (n : Name) (hn : n ∉ targets op ch) :
+    (op : Op) (ho : CanonOp op) (ch : Choice) (n : Name) (hn : n ∉ targets env st op ch) :
     (step env st op ch).1.man n = st.man n ∧
     ∀ m, st.man n = some (.readable m) → ∀ l ∈ m.all, ∀ c,
       st.blob l.digest.key = some c → (step env st op ch).1.blob l.digest.key = some c :=
-  let g := step_good hinj hc hi op ho ch
+  let g := step_good hinj (Or.inr hc) hi op (Or.inr ho) ch
   ⟨g.frameMan n hn, fun m hm l hl c h => g.frameBlob n m hn hm l hl c h⟩
 
-/-- the invariant holds along every history of guarded operations from the empty store -/
+/-- histories -/
 def run (env : Env) : Store → List (Op × Choice) → Store
   | st, [] => st
   | st, (op, ch) :: rest => run env (step env st op ch).1 rest
 
-theorem history_preserves_Inv {env : Env} (hinj : HashInj env) (ops : List (Op × Choice))
-    (ho : ∀ p ∈ ops, CanonOp p.1) (st : Store) (hc : Canonical st) (hi : Inv env st) :
-    Inv env (run env st ops) ∧ Canonical (run env st ops) := by
+theorem history_preserves_Inv {env : Env} (hv : env.v.fixAlias = false) (hinj : HashInj env)
+    (ops : List (Op × Choice)) (ho : ∀ p ∈ ops, CanonOp p.1) (st : Store) (hc : Canonical st)
+    (hi : Inv env st) : Inv env (run env st ops) ∧ Canonical (run env st ops) := by
   induction ops generalizing st with
   | nil => exact ⟨hi, hc⟩
   | cons p rest ih =>
     obtain ⟨op, ch⟩ := p
-    obtain ⟨hi', hc'⟩ := op_preserves_NameInv hinj st hc hi op (ho (op, ch) (by simp)) ch
+    obtain ⟨hi', hc'⟩ := op_preserves_NameInv hv hinj st hc hi op (ho (op, ch) (by simp)) ch
     exact ih (fun q hq => ho q (by simp [hq])) _ hc' hi'
 
 theorem empty_Inv (env : Env) : Inv env Store.empty ∧ Canonical Store.empty := by
@@ -81,22 +119,83 @@ theorem empty_Inv (env : Env) : Inv env Store.empty ∧ Canonical Store.empty :=
   · intro n m h; simp [Store.empty, Store.man, aget] at h
   · intro n m h; simp [Store.empty, Store.man, aget] at h
 
-/-- **Startup prune is exact.**  If all digest strings are spelled `sha256:<hex>` and every manifest parses,
-    the blobs after the startup prune are exactly the blobs some readable manifest points to. -/
-theorem prune_exact (st : Store) (hc : Canonical st) (hnc : st.hasCorrupt = false) (k : String) :
-    (pruneStartup st).1.blob k = if st.keyReferenced k then st.blob k else none := by
+/-- **Startup prune is exact — pinned.**  If all digest strings are spelled `sha256:<hex>` and every manifest
+    parses, the blobs after the startup prune are exactly the blobs some readable manifest points to. -/
+theorem prune_exact_guarded (env : Env) (st : Store) (hc : Guard env st) (hnc : st.hasCorrupt = false)
+    (k : String) :
+    (pruneStartup env st).1.blob k = if st.keyReferenced k then st.blob k else none := by
   unfold pruneStartup
   simp only [hnc, Bool.false_eq_true, if_false]
   rw [pruneLayers_blob]
   cases hk : st.keyReferenced k with
-  | true => rw [hc.referenced_of_key (d := ⟨.colon, k⟩) rfl hk]
+  | true => rw [inUse_of_key hc (d := ⟨.colon, k⟩) (Or.inr rfl) hk]
   | false =>
-    cases hr : st.referenced ⟨.colon, k⟩ with
+    cases hr : env.inUse st ⟨.colon, k⟩ with
     | false => rfl
     | true =>
-      have := keyReferenced_of_referenced hr
+      have := key_of_inUse hr
       simp only [Digest.key] at this
       rw [hk] at this; cases this
+
+theorem prune_exact (env : Env) (st : Store) (hc : Canonical st) (hnc : st.hasCorrupt = false) (k : String) :
+    (pruneStartup env st).1.blob k = if st.keyReferenced k then st.blob k else none :=
+  prune_exact_guarded env st (Or.inr hc) hnc k
+
+/-! ## F16a repaired: the same theorems WITHOUT any spelling guard -/
+
+/-- **Every readable model stays complete — F16a repaired, no guard.**  For every store (digest strings in
+    any spelling), every operation (including the injected plant / corrupt / dashify) and every iteration
+    order. -/
+theorem op_preserves_NameInv_fixed {env : Env} (hv : env.v.fixAlias = true) (hinj : HashInj env) (st : Store)
+    (hi : Inv env st) (op : Op) (ch : Choice) : Inv env (step env st op ch).1 :=
+  let g := step_good hinj (Or.inl hv) hi op (Or.inl hv) ch
+  ⟨g.blobsOk, g.nameInv hi.2⟩
+
+/-- **Operations on one model never damage another — F16a repaired, no guard.** -/
+theorem op_frame_fixed {env : Env} (hv : env.v.fixAlias = true) (hinj : HashInj env) (st : Store)
+    (hi : Inv env st) (op : Op) (ch : Choice) (n : Name) (hn : n ∉ targets env st op ch) :
+    (step env st op ch).1.man n = st.man n ∧
+    ∀ m, st.man n = some (.readable m) → ∀ l ∈ m.all, ∀ c,
+      st.blob l.digest.key = some c → (step env st op ch).1.blob l.digest.key = some c :=
+  let g := step_good hinj (Or.inl hv) hi op (Or.inl hv) ch
+  ⟨g.frameMan n hn, fun m hm l hl c h => g.frameBlob n m hn hm l hl c h⟩
+
+theorem history_preserves_Inv_fixed {env : Env} (hv : env.v.fixAlias = true) (hinj : HashInj env)
+    (ops : List (Op × Choice)) (st : Store) (hi : Inv env st) : Inv env (run env st ops) := by
+  induction ops generalizing st with
+  | nil => exact hi
+  | cons p rest ih => exact ih _ (op_preserves_NameInv_fixed hv hinj st hi p.1 p.2)
+
+/-- **Startup prune is exact — F16a repaired, no guard** (only: every manifest parses, else prune is skipped). -/
+theorem prune_exact_fixed {env : Env} (hv : env.v.fixAlias = true) (st : Store) (hnc : st.hasCorrupt = false)
+    (k : String) :
+    (pruneStartup env st).1.blob k = if st.keyReferenced k then st.blob k else none :=
+  prune_exact_guarded env st (Or.inl hv) hnc k
+
+/-! ## N1 repaired: a create that reports an error changes no manifest and damages nothing -/
+
+/-- **A failed create leaves the target (and everything else) as it was — N1 repaired.**  If the event stream
+    of a create contains anything but the success event then it contains no success event, every manifest
+    file — the target's included — is unchanged, and every blob a readable manifest points to is still there
+    with the same bytes.  (On the pinned tree the premise does not exclude a later success: witness below.) -/
+theorem failed_create_changes_nothing_fixed {env : Env} (hv : env.v.fixReturn = true) (hinj : HashInj env)
+    (st : Store) (hc : Guard env st) (hi : Inv env st) (r : CreateReq) (ho : GuardOp env (.create r))
+    (ch : Choice) (hfail : ∃ e ∈ (step env st (.create r) ch).2, e ≠ "s") :
+    "s" ∉ (step env st (.create r) ch).2 ∧
+    (∀ n, (step env st (.create r) ch).1.man n = st.man n) ∧
+    ∀ n m, st.man n = some (.readable m) → ∀ l ∈ m.all, ∀ c,
+      st.blob l.digest.key = some c → (step env st (.create r) ch).1.blob l.digest.key = some c := by
+  simp only [step] at hfail ⊢
+  have hs : "s" ∉ (createAt env st r (resolveName env st ch.ord1 r.name) ch.frev).2 := by
+    rcases createAt_events_fixed hv st r (resolveName env st ch.ord1 r.name) ch.frev with h | h
+    · obtain ⟨e, he, hne⟩ := hfail
+      rw [h] at he
+      simp only [List.mem_singleton] at he
+      exact absurd he hne
+    · exact h
+  have bs := (createAt_good hinj hi.1 hc r (fun d hd => ho.imp id (fun h => h d hd))
+    (resolveName env st ch.ord1 r.name) ch.frev).2 hs
+  exact ⟨hs, fun n => man_congr bs.mans n, fun n m hm l hl c h => bs.keep hm hl h⟩
 
 /-! ## letter case -/
 
